@@ -13,6 +13,7 @@ D-rules implemented here (see DESIGN.md 2.1):
   D9  parameter pattern `_: T` -> `_argN: T`
   D10 zero-argument closure `|| EXPR` gets a spec header: `|| -> (r: T) ensures .. { EXPR }`
   D12 named struct fields get `pub` (visibility only)
+  D13 function-local `const N: T = E;` -> `let N: T = E;`
   D11 `impl Into<T>`-style generic conversions: not rewritten (functions using them are handled by shims)
 """
 import hashlib
@@ -297,6 +298,23 @@ class FnWeaver:
         b = self.src.toks[p['body_close']][1]
         self.edits.append((a, b, [(' unimplemented!() ', 'repo', self.rel, self.line_at(a))]))
 
+    # -- D13: `const NAME: T = EXPR;` inside a function body -> `let NAME: T = EXPR;`
+    # (Verus evaluates const initialisers in spec mode and rejects exec calls such as Duration::from_secs there;
+    #  a local const of a pure constructor call and a let binding of the same expression denote the same value)
+    def local_consts_to_let(self):
+        s = self.src
+        p = self.parts
+        k = s.next_code(p['body_open'])
+        while k is not None and k < p['body_close']:
+            if s.toks[k][0] == 'id' and s.tok_text(k) == 'const':
+                nk = s.next_code(k)
+                nn = s.next_code(nk) if nk is not None else None
+                if nk is not None and s.toks[nk][0] == 'id' and nn is not None and s.is_p(nn, ':'):
+                    t = s.toks[k]
+                    self.edits.append((t[1], t[2], [('let', 'repo', self.rel, self.line_at(t[1]))]))
+                    self.rules.add('D13')
+            k = s.next_code(k)
+
     # -- D9
     def rename_underscore_params(self):
         s = self.src
@@ -361,6 +379,17 @@ class FnWeaver:
         segs = [('\n', 'repo', self.rel, self.line_at(off)), ('\n'.join(lines) + '\n', 'tmpl', self.tmpl_file, tline)]
         self.edits.append((off, off, segs))
 
+    def add_loop_end(self, n, lines, tline):
+        """proof block just before the closing brace of the body of loop n"""
+        ls = self.loops()
+        if n < 1 or n > len(ls):
+            self.lost.append('loop %d of %s (function has %d loops)' % (n, self.qual, len(ls)))
+            return
+        kw, ob = ls[n - 1]
+        cb = self.src.matches()[ob]
+        off = self.src.toks[cb][1]
+        self.edits.append((off, off, [('\n'.join(lines) + '\n', 'tmpl', self.tmpl_file, tline)]))
+
     def add_end(self, lines, tline):
         """proof block just before the closing brace of the body (for functions whose body ends with a statement)"""
         p = self.parts
@@ -389,12 +418,24 @@ class FnWeaver:
             k = s.next_code(k)
         return res
 
-    def add_loop_spec(self, n, lines, tline):
+    def add_loop_spec(self, n, lines, tline, iter_name=None):
         ls = self.loops()
         if n < 1 or n > len(ls):
             self.lost.append('loop %d of %s (function has %d loops)' % (n, self.qual, len(ls)))
             return
         kw, ob = ls[n - 1]
+        if iter_name:
+            # name the ghost iterator of a `for` loop: `for PAT in EXPR` -> `for PAT in it: EXPR` (specification syntax only)
+            s = self.src
+            k = s.next_code(kw)
+            while k is not None and k < ob:
+                if s.is_p(k, '(') or s.is_p(k, '['):
+                    k = s.matches()[k]
+                elif s.toks[k][0] == 'id' and s.tok_text(k) == 'in':
+                    off = s.toks[k][2]
+                    self.edits.append((off, off, [(' %s:' % iter_name, 'tmpl', self.tmpl_file, tline)]))
+                    break
+                k = s.next_code(k)
         off = self.src.toks[ob][1]
         segs = [('\n', 'repo', self.rel, self.line_at(off)), ('\n'.join(lines) + '\n', 'tmpl', self.tmpl_file, tline)]
         self.edits.append((off, off, segs))
@@ -599,6 +640,7 @@ def weave(unit_path):
             else:
                 fw.drop_logs()
                 fw.deref_for_patterns()
+                fw.local_consts_to_let()
             fw.rename_underscore_params()
             attrs = []
             safety = list(info['props'])
@@ -644,8 +686,15 @@ def weave(unit_path):
                     fw.add_entry(blk, blk_line)
                 elif sd == 'end':
                     fw.add_end(blk, blk_line)
+                elif sd == 'loopend':
+                    fw.add_loop_end(int(sarg), blk, blk_line)
                 elif sd == 'loop':
-                    fw.add_loop_spec(int(sarg), blk, blk_line)
+                    la = sarg.split()
+                    itn = None
+                    for x in la[1:]:
+                        if x.startswith('iter='):
+                            itn = x[5:]
+                    fw.add_loop_spec(int(la[0]), blk, blk_line, itn)
                 elif sd == 'forwhile':
                     fw.desugar_for_continue(int(sarg))
                 elif sd == 'closure':
